@@ -617,6 +617,14 @@ def class_pairs():
                                                  ("local initialiser, bounded by the value's class", " extends Foo", "Sub", "new Sub()", "T t = new Foo();", "T t = other;"),
                                                  ("field assignment, bounded", " extends Foo", "Sub", "new Sub()", "this.v = new Foo();", "this.v = other;")]:
         P.append(("a class value where a type parameter is expected", pos, tp % (bound, bad_s, arg, arg, val), tp % (bound, good_s, arg, arg, val)))
+    tpa = ("class Foo { public constructor() -> Foo = default; }\n"
+           "class Box<T%s> { public T v; public constructor(T v) -> Box<T> { this.v = v; return this; }\n  public function set(T x) -> void { this.v = x; }\n"
+           "  public function m(T other) -> void { %s } }\nfunction main() -> void { Box<%s> b = new Box<%s>(%s); echo(\"ok\"); }")
+    for pos, bound, arg, val, bad_s, good_s in [("bare method call", "", "int", "1", "set(new Foo());", "set(other);"),
+                                                 ("method call through this", "", "int", "1", "this.set(new Foo());", "this.set(other);"),
+                                                 ("constructor argument", "", "int", "1", "Box<T> c = new Box<T>(new Foo());", "Box<T> c = new Box<T>(other);"),
+                                                 ("bare method call, bounded", " extends Foo", "Foo", "new Foo()", "set(new Foo());", "set(other);")]:
+        P.append(("a class value where a type parameter is expected", pos, tpa % (bound, bad_s, arg, arg, val), tpa % (bound, good_s, arg, arg, val)))
     return P
 
 
